@@ -28,8 +28,9 @@ class Part:
 class Sched:
     OK, DEADLOCK, STEPS = "ok", "deadlock", "step-bound"
 
-    def __init__(self, choices=(), max_steps=20000, preemptions=None):
+    def __init__(self, choices=(), max_steps=20000, preemptions=None, default_choice=0):
         self.choices = list(choices)
+        self.default_choice = default_choice   # what to pick once the drawn choices are used up (0 = first runnable)
         self.ci = 0
         self.parts = []
         self.by_ident = {}
@@ -114,7 +115,7 @@ class Sched:
         if self.ci < len(self.choices):
             c = self.choices[self.ci]; self.ci += 1
         else:
-            c = 0
+            c = self.default_choice
         return runnable[c % len(runnable)]
 
     def run(self):
